@@ -8,7 +8,9 @@ import implobs
 from gens.programs import Opts, Gen
 from props.c15 import canon_obs
 
-THEOREMS = ['fully_supported_untouched', 'full_after_removal', 'coverage_dispatch_as_modelled']
+THEOREMS = ['fully_supported_untouched', 'full_after_removal', 'coverage_dispatch_as_modelled',
+            'inserted_unsupported_statement_is_removed_exactly', 'inserted_unsupported_item_is_removed_exactly',
+            'analysis_unaffected_by_inserted_unsupported_statement']
 RULE = ('supported generated functions (incl. nested loops / branches) into which a multiset of 1-4 unsupported '
         'statements over fresh identifiers (calls, arrays, pointers, ternary, compound assignment, n-ary expressions, '
         'switch, goto, initialised / array / pointer declarations, non-counted for loops, division) is inserted at '
